@@ -226,6 +226,57 @@ def note_run(conf, recs):
         WRITER_HISTORY.append((key, conf, [tuple(r) for r in recs[:2]]))
 
 
+def call_plan(conf, recs):
+    """[(style, chunk)]: how the records reach the writer.  conf['calls'] = [[style, size], ...] with style
+    'line' (writeline once per record) or 'lines' (one writelines(chunk) call, the chunk may be empty);
+    default: writeline for every record.  The model does not distinguish them (writelines is a loop of
+    writeline in the code)."""
+    calls = conf.get("calls")
+    if not calls:
+        return [("line", [tuple(r)]) for r in recs]
+    out, i = [], 0
+    for style, size in calls:
+        chunk = [tuple(r) for r in recs[i:i + size]]
+        i += size
+        if style == "lines":
+            out.append(("lines", chunk))
+        else:
+            out += [("line", [r]) for r in chunk]
+    out += [("line", [tuple(r)]) for r in recs[i:]]
+    return out
+
+
+def write_records(g, conf, recs, after=None):
+    """feed the records to the writer following the call plan; after(j) is called after each call with the
+    number of records handed over so far"""
+    j = 0
+    for style, chunk in call_plan(conf, recs):
+        if style == "lines":
+            g.writelines(list(chunk))
+        else:
+            g.writeline(chunk[0])
+        j += len(chunk)
+        if after is not None:
+            after(j)
+
+
+def gen_calls(rs, n):
+    """a random split of n records into chunks, each written by writeline calls or by one writelines call;
+    empty writelines calls and a final writelines call included"""
+    calls, left = [], n
+    while left > 0:
+        size = int(rs.randint(1, left + 1)) if rs.randint(0, 3) else left
+        calls.append(["lines" if rs.randint(0, 3) else "line", size])
+        left -= size
+        if rs.randint(0, 5) == 0:
+            calls.append(["lines", 0])
+    if rs.randint(0, 2) and calls[-1][0] != "lines":
+        calls[-1][0] = "lines"              # the last call is a writelines call
+    if rs.randint(0, 6) == 0:
+        calls.insert(0, ["lines", 0])
+    return calls
+
+
 def run_writer(path, conf, recs):
     """('file', text) or ('err', code)"""
     note_run(conf, recs)
@@ -233,8 +284,7 @@ def run_writer(path, conf, recs):
     try:
         g = GroFile()(path, "w")
         apply_conf(g, conf)
-        for r in recs:
-            g.writeline(tuple(r))
+        write_records(g, conf, recs)
         g.close()
     except Exception as e:  # noqa: BLE001 - the class is the observation
         try:
@@ -325,9 +375,7 @@ def run_writer_snapshots(path, conf, recs):
         with open(path, "rb") as f:
             return f.read().decode("latin-1")
     ops = [(0, now())]
-    for i, r in enumerate(recs):
-        g.writeline(tuple(r))
-        ops.append((i + 1, now()))
+    write_records(g, conf, recs, after=lambda j: ops.append((j, now())) if j != ops[-1][0] else None)
     n = len(recs)
     mark = len(proxy.events)
     g._write_closing_info()
@@ -542,6 +590,8 @@ def gen_case(rs, natoms=None, allow_wide=False, fmt_d=None, vel=None, declared=N
         title = gen_title_nonascii(rs)
     conf = {"title": title, "natoms": natoms if declared else None, "fmt": fmt,
             "box": gen_box(rs)}
+    if rs.randint(0, 2):
+        conf["calls"] = gen_calls(rs, natoms)   # mixed writeline / writelines call pattern
     return conf, recs
 
 
